@@ -714,12 +714,19 @@ impl BufferedDatabaseWriter {
         //at the end of the batch, update the daily log with all room dates that needs to be recomputed
         #[cfg(feature = "verif")]
         crate::verif_hooks::failpoint("before_marks");
-        daily_log.write(conn)?;
+        if let Err(e) = daily_log.write(conn) {
+            conn.execute("ROLLBACK", [])?;
+            return Err(e);
+        }
         #[cfg(feature = "verif")]
         crate::verif_hooks::failpoint("before_commit");
         #[cfg(feature = "verif")]
         crate::verif_hooks::failpoint_err("commit")?;
-        conn.execute("COMMIT", [])?;
+        if let Err(e) = conn.execute("COMMIT", []) {
+            //the transaction is still open: without a rollback every later batch would fail to begin
+            let _ = conn.execute("ROLLBACK", []);
+            return Err(e);
+        }
         #[cfg(feature = "verif")]
         crate::verif_hooks::failpoint("after_commit");
 
